@@ -29,6 +29,7 @@ type fnInfo struct {
 	rmode    string
 	sched    bool // call is a scheduling point
 	inRepo   bool
+	monitor  bool // memory allocated by this function is watched by the race monitor
 	atomic   bool // library function executed as one atomic step (reduction a)
 }
 
@@ -70,8 +71,13 @@ func (p *Prog) info(fn *ssa.Function) *fnInfo {
 		}
 	}
 	if pk != nil {
-		fi.inRepo = strings.HasPrefix(pk.Pkg.Path(), p.modPath)
-		fi.atomic = atomicPkgs[pk.Pkg.Path()]
+		path := pk.Pkg.Path()
+		fi.inRepo = strings.HasPrefix(path, p.modPath)
+		fi.atomic = atomicPkgs[path]
+		fi.monitor = (fi.inRepo || strings.HasPrefix(path, "github.com/glebziz/containers")) && !strings.Contains(path, "/internal/verif")
+		if fi.monitor && fn.Pos().IsValid() && strings.Contains(p.prog.Fset.Position(fn.Pos()).Filename, "zz_verif") {
+			fi.monitor = false // harness code
+		}
 	}
 	p.infos[fn] = fi
 	return fi
@@ -258,7 +264,7 @@ func (m *Machine) globalCell(g *ssa.Global) *Cell {
 		return c
 	}
 	c := &Cell{v: m.zero(g.Type().(*types.Pointer).Elem())}
-	if m.raceOn && g.Pkg != nil && strings.HasPrefix(g.Pkg.Pkg.Path(), m.p.modPath) {
+	if m.raceOn && g.Pkg != nil && strings.HasPrefix(g.Pkg.Pkg.Path(), m.p.modPath) && !strings.Contains(g.Pkg.Pkg.Path(), "/internal/verif") && !strings.HasPrefix(g.Name(), "verif") && !strings.HasPrefix(g.Name(), "Verif") {
 		markMon(c, g.String())
 	}
 	m.globals[g] = c
@@ -830,8 +836,10 @@ func (m *Machine) invokeDeferred(th *Thread, owner *Frame, d *deferred) {
 	if fi.intr != nil {
 		_, ok := fi.intr(m, th, d.target.fn, d.args)
 		if !ok {
-			// blocking deferred intrinsic (e.g. defer wg.Wait()): re-queue and block
+			// blocked or switched away at the scheduling point: re-queue, retry when rescheduled
 			owner.defers = append(owner.defers, d)
+		} else {
+			th.passedSched = false
 		}
 		return
 	}
